@@ -22,6 +22,7 @@ func vfH_C09_publish() {
 	vfOpenAof(env, dir)
 	aof := env.slock.aof
 	aof.rewriteSize = 12 + 64*2
+	aof.isRewriting = true // keeps the rotation's background compaction job from starting: natively it would race with this harness
 	held := [2]int{}
 	for step := 0; step < 4; step++ {
 		k := vfChoice(vfName("key", step), 2)
